@@ -268,16 +268,15 @@ def verify(spec: FuncSpec, cfg: dict, tier="quick", exclude=()) -> RunResult:
                 except NameError:
                     continue
                 ctx.assume(z3.Not(tb(cls)))
-            if res.cover is None:
+            if not res.cover:
+                # vacuity guard: some explored path must satisfy the precondition.  A path whose own setup decisions
+                # contradict the precondition (or that lies inside an excluded known-finding class) is just infeasible;
+                # the contract is vacuous only if *no* path is satisfiable (decided after the exploration).
                 r, _ = ctx._check()
-                res.cover = (r == z3.sat)
-                if r == z3.unsat:
-                    if exclude:
-                        # re-check outside a known-finding class: this path lies inside the class
-                        res.cover = None
-                        raise PathInfeasible()
-                    res.errors.append("vacuous precondition: requires is unsatisfiable")
-                    break
+                if r == z3.sat:
+                    res.cover = True
+                elif r == z3.unsat:
+                    raise PathInfeasible()
             try:
                 result = spec.call(c, args, kwargs)
                 outcome = ("return", result)
@@ -331,6 +330,9 @@ def verify(spec: FuncSpec, cfg: dict, tier="quick", exclude=()) -> RunResult:
             sym.set_cur(None)
         if len(res.errors) > 3 or len(res.undecided) > 50:
             break
+    if not res.cover and not exclude and not res.errors and not res.undecided and res.paths == 0:
+        res.cover = False
+        res.errors.append("vacuous precondition: requires is unsatisfiable on every path")
     res.canaries = canary_seen
     res.wall_s = time.time() - t0
     return res
